@@ -22,6 +22,8 @@ type FCase struct {
 	replay.Case
 	Faults []replay.Fault `json:"faults"`
 	Opts   replay.Opts    `json:"opts"`
+	// PingIdle: the stream and schedule were shaped like an idle master's (PINGs surrounded by idle time, in front of barriers)
+	PingIdle bool `json:"pingIdle,omitempty"`
 }
 
 func genCase(t *rapid.T) FCase {
@@ -30,6 +32,11 @@ func genCase(t *rapid.T) FCase {
 	c.Cfg = gen.GenOutCfg(t, &yes, nil)
 	c.Cmds = gen.GenStream(t, c.Cfg, gen.StreamOpts{MaxCmds: 20, TxnBias: 2, SelectBias: 2, NoiseBias: 3})
 	c.Sched = gen.GenSchedule(t, c.Cfg, true)
+	if rapid.IntRange(0, 2).Draw(t, "pingIdle") == 0 {
+		// an idle master: keep-alive PINGs surrounded by idle time, in front of SELECT / MULTI
+		c.Cmds, c.Sched = gen.PingIdle(t, c.Cfg, c.Cmds)
+		c.PingIdle = true
+	}
 	// idle before the first item of a run, longer than the tickers
 	if rapid.Bool().Draw(t, "leadIdle") {
 		c.Sched.LeadMs = rapid.SampledFrom([]int{c.Cfg.CpTickerMs + 5, c.Cfg.CpTickerMs*2 + 5, c.Cfg.BatchTickerMs*3 + 5}).Draw(t, "leadMs")
@@ -112,6 +119,7 @@ func check(t pbt.TB, c FCase) {
 	st.ClassIf(len(tr.Runs) >= 3, "restarts>=2")
 	st.ClassIf(c.Cfg.Txn, "txn-mode")
 	st.ClassIf(c.Cfg.Pipeline, "pipeline")
+	st.ClassIf(c.PingIdle, "idle-master-pings")
 	st.ClassIf(c.Sched.LeadMs > 1000, "keepalive-idle-before-first-item")
 	last := tr.Runs[len(tr.Runs)-1]
 	st.ClassIf(last.NothingLeft && c.Opts.IdleRunMs > 0, "restart-followed-by-pure-idleness")
